@@ -123,7 +123,11 @@ def check_static(p, ctx):
             if abs(pred - zb) > 2.5 * EA[2 * r_i, k] + 1e-12:
                 return ctx.violation("coefficients-do-not-transform", p, observed=[zb.real, zb.imag],
                                      expected=[pred.real, pred.imag], detail={"junction": rows[r_i], "ridge": cols[k]})
-    # ---- tensions
+    # ---- tensions (only where the optimum is unique: full column rank of the analytic augmented system; the
+    # rank-deficient case is known finding D3 / an under-determined tissue)
+    if not infer.full_column_rank(infer.augment(TA)[0], 1e-8):
+        ctx.skip("augmented system rank deficient (optimum not unique)")
+        return
     refA, refB = nnls_tensions(TA), nnls_tensions(TB)
     obsA, obsB = nnls_tensions(MA), nnls_tensions(MB)
     if refA is None or refB is None or obsA is None or obsB is None:
